@@ -761,6 +761,50 @@ func checkBlockAPI(c apiCase) []vf.Finding {
 	return fs
 }
 
+// ---- a decoded data block that is extended afterwards ----------------------------------------------------------
+//
+// "... also when the encoding is followed by unrelated trailing bytes": the trailing bytes are the caller's - here the
+// next block of the same buffer. A data block is decoded from the head of a buffer that holds a second block behind
+// it, the decoded block is extended through its own method (Data.Add: "appends the given bytes to the existing
+// bytes"), and then the second block is decoded from where the first one ended: it must still be the block the
+// caller put there, and the first one must hold its content followed by what was added. (A decoder that keeps a
+// slice of the input with the input's capacity lets Add write over what follows.)
+
+type extendCase struct {
+	First  vf.Hex `json:"first_block"`
+	Second vf.Hex `json:"second_block"`
+	Added  vf.Hex `json:"added_to_the_decoded_first"`
+}
+
+func checkExtend(c extendCase) []vf.Finding {
+	block := func(b []byte) []byte { return append([]byte{byte(len(b)), byte(len(b) >> 8)}, b...) }
+	buf := append(block(c.First), block(c.Second)...)
+	buf = buf[:len(buf):len(buf)]
+	a := data.NewData()
+	n, err := a.Unmarshal(buf)
+	if err != nil || n != 2+len(c.First) || !bytes.Equal(a.Bytes, c.First) {
+		return nil // Data-roundtrip reports a block that does not decode
+	}
+	a.Add(append([]byte{}, c.Added...))
+	var fs []vf.Finding
+	if want := append(append([]byte{}, c.First...), c.Added...); !bytes.Equal(a.Bytes, want) || int(a.ByteCount) != len(want) {
+		fs = append(fs, vf.F("Data.Add", "decoded-block-not-extended", "decoded %d bytes, added %d: holds %d bytes (ByteCount %d)", len(c.First), len(c.Added), len(a.Bytes), a.ByteCount))
+	}
+	b := data.NewData()
+	m, err := b.Unmarshal(buf[n:])
+	if err != nil || m != 2+len(c.Second) || !bytes.Equal(b.Bytes, c.Second) {
+		fs = append(fs, vf.F("Data.Unmarshal", "later-block-overwritten-through-decoded-block", "two blocks (%d and %d bytes) in one buffer; after the first was decoded and %d bytes were added to it with Add, the second decodes as %d bytes (err %v): the buffer behind the first block reads %x, the caller wrote %x", len(c.First), len(c.Second), len(c.Added), len(b.Bytes), err, buf[n:min(len(buf), n+12)], block(c.Second)[:min(2+len(c.Second), 12)]))
+	}
+	return fs
+}
+
+func TestDecodedBlockExtended(t *testing.T) {
+	s := vf.Begin(t, P, "decoded-block-then-extended")
+	vf.Rapid(s, vf.N(3000, 40000), func(t *rapid.T) extendCase {
+		return extendCase{rapid.SliceOfN(rapid.Byte(), 0, 24).Draw(t, "first"), rapid.SliceOfN(rapid.Byte(), 0, 24).Draw(t, "second"), rapid.SliceOfN(rapid.Byte(), 1, 12).Draw(t, "added")}
+	}, checkExtend, func(c extendCase) bool { return len(c.Second) > 0 })
+}
+
 func TestBlocksThroughMethods(t *testing.T) {
 	s := vf.Begin(t, P, "blocks-built-through-methods")
 	vf.Rapid(s, vf.N(3000, 12000), func(t *rapid.T) apiCase {
